@@ -490,3 +490,60 @@ def V_(x):
 CONTRACTS += [GetCoefficients(1), GetCoefficients(2), GetCoefficients(3)]
 ASSUMPTIONS += ["get_coefficients_to_index_set verified for dim in {1,2,3} (stencil loops unrolled; index set arbitrary); COEFF is the fold of the Lean `coeff` summand over the set "
                 "(well defined because the sum is commutative; iteration order arbitrary, A-ITER); completeness of the returned list (every non-zero coefficient appears) is layer B"]
+
+
+# --------------------------------------------------------------------------- init_adaptive_combi_scheme: fresh state irrespective of the object's history
+ACTIVE0 = z3.Function("init_active_index_set", I, I, I, VSet)
+OLD0 = z3.Function("init_old_index_set", I, I, I, VSet)
+
+
+class InitActive(Contract):
+    file, qualname = FILE, "CombiScheme.init_active_index_set"
+    trusted = True
+    note = "static enumeration of the standard scheme's top layer (getGrids recursion): a deterministic function of (lmax, lmin, dim); its content is checked exhaustively by layer B"
+
+    def inputs(self, S):
+        return {"lmax": S.int("lmax"), "lmin": S.int("lmin"), "dim": S.int("dim")}
+
+    def result(self, S, env):
+        return SetV(ACTIVE0(V_(env["lmax"]), V_(env["lmin"]), V_(env["dim"])))
+
+
+class InitOld(InitActive):
+    qualname = "CombiScheme.init_old_index_set"
+
+    def result(self, S, env):
+        return SetV(OLD0(V_(env["lmax"]), V_(env["lmin"]), V_(env["dim"])))
+
+
+class InitAdaptive(Contract):
+    file, qualname = FILE, "CombiScheme.init_adaptive_combi_scheme"
+
+    def inputs(self, S):
+        # no quantified axioms here: the obligation is quantifier free, so a refutation comes back as a model (sat) and can be replayed
+        s = Obj("CombiScheme", dict(dim=S.int("dim"), lmin=S.int("lmin"), lmax_adaptive=S.int("lmax_adaptive"),
+                                    active_index_set=S.set("A", Vec), old_index_set=S.set("O", Vec)))
+        s.fields["initialized_adaptive"] = S.bool("initialized_adaptive")      # any history: fresh object or used one
+        s.fields["lmax"] = S.int("lmax_old")
+        return {"self": s, "lmax": S.int("lmax"), "lmin": S.int("lmin_new")}
+
+    def post(self, S, old, env, result):
+        f = env["self"].fields
+        lmax, lmin, dim = old["lmax"], old["lmin"], old["self"].fields["dim"]
+        ok = isinstance(f["active_index_set"], SetV) and isinstance(f["old_index_set"], SetV)
+        if not ok:
+            return [Cl("sets", False, prop=True)]
+        return [Cl("state-is-the-fresh-standard-scheme-irrespective-of-history",
+                   z3.And(f["active_index_set"].arr == ACTIVE0(lmax, lmin, dim), f["old_index_set"].arr == OLD0(lmax, lmin, dim),
+                          V_(f["lmax_adaptive"]) == lmax, V_(f["lmin"]) == lmin, V_(f["lmax"]) == lmax,
+                          (f["initialized_adaptive"] is True) if isinstance(f["initialized_adaptive"], bool) else f["initialized_adaptive"]), prop=True)]
+
+    @staticmethod
+    def model_to_input(model):
+        from pyvc import modelparse as mp
+        g = lambda k, d: mp.num(model.get(k, str(d)))  # noqa
+        return {"kind": "C01.reinit", "dim": g("dim", 2), "lmax": g("lmax", 2), "lmin": g("lmin_new", 1), "lmax_old": g("lmax_old", 2), "lmin_old": g("lmin", 1),
+                "initialized": model.get("initialized_adaptive", "False") == "True"}
+
+
+CONTRACTS += [InitActive(), InitOld(), InitAdaptive()]
